@@ -61,6 +61,10 @@ func (p *Proof) IsValid(public Public) bool {
 	if p.Commitment == nil || p.S == nil || p.T == nil || p.Z1 == nil || p.Z2 == nil {
 		return false
 	}
+	// Z1 is encrypted again during verification
+	if !public.Prover.ValidatePlaintext(p.Z1) {
+		return false
+	}
 	if p.Gamma == nil || p.Gamma.IsZero() {
 		return false
 	}
